@@ -369,10 +369,17 @@ pub fn campaign<S, C>(
     let worker = RefCell::new(Worker::new(eval, on_death));
     let known = Known::load(&ctx.id);
     let mut seen: BTreeSet<String> = BTreeSet::new();
+    let stop_at_first = std::env::var("XCDR_STOP_AT_FIRST").is_ok();
+    // at most this many new signatures are minimised per run; further ones are reported as found
+    const MAX_MINIMISATIONS: usize = 6;
+    let mut minimised = 0usize;
     let mut runner = vcore::pt::runner(cfg.cases, ctx.rng_seed(cfg.stream), cfg.max_shrink);
     let mut done = 0u32;
     let mut total_evals = 0u64;
     while done < cfg.cases {
+        if stop_at_first && !report.failures.is_empty() {
+            break;
+        }
         let n = (cfg.batch as u32).min(cfg.cases - done) as usize;
         let mut trees = Vec::with_capacity(n);
         for _ in 0..n {
@@ -398,8 +405,15 @@ pub fn campaign<S, C>(
                     *report.stats.excluded_known.entry(sig).or_insert(0) += 1;
                 } else if seen.contains(&sig) {
                     report.stats.class(&format!("also-hit:{sig}"));
+                } else if minimised >= MAX_MINIMISATIONS {
+                    seen.insert(sig.clone());
+                    report.failures.push(Failure { signature: sig, what, case: js.clone(), shrunk_from: None, shrunk_to: None });
                 } else {
                     // minimise this case with respect to this signature
+                    minimised += 1;
+                    if !report.stats.extra.contains_key("first_violation_wall_s") {
+                        report.stats.extra.insert("first_violation_wall_s".into(), serde_json::json!(ctx.t0.elapsed().as_secs_f64()));
+                    }
                     if std::env::var("XCDR_DEBUG").is_ok() {
                         eprintln!("[{}] new signature {sig} at case {}; shrinking", cfg.stream, done as usize + idx);
                     }
